@@ -5,11 +5,11 @@ D = os.path.dirname(os.path.dirname(os.path.abspath(__file__)))
 props = [json.loads(l) for l in open(os.path.join(D, 'properties.jsonl'))]
 T_BV = "symbolic execution of the real go/ssa code + SMT (own engine symgo; z3 5.1.0 primary, bit-vector encoding)"
 claimed = {
- "C06": ("other", "LoadSidecar / Flush / LoadOrCreateSidecarWithFallback executed symbolically over a filesystem model: arbitrary bytes, every bit flip and truncation of valid sidecars, identity and chunk count of the returned sidecar; the real receiver (symbolic threads) started next to right-identity metadata whose data file is missing, shortened or intact: only chunks whose bytes are on disk are advertised to the sender; solver decides each assertion for all field values within the stated sizes", T_BV, "§5 C06"),
+ "C06": ("other", "LoadSidecar / Flush / LoadOrCreateSidecarWithFallback executed symbolically over a filesystem model: arbitrary bytes, every bit flip and truncation of valid sidecars, identity and chunk count of the returned sidecar; second run with both real endpoints where the highest marked chunk is damaged (re-send on the wire asserted; the final-file assertion is a recorded known finding); the real receiver (symbolic threads) started next to right-identity metadata whose data file is missing, shortened or intact: only chunks whose bytes are on disk are advertised to the sender; solver decides each assertion for all field values within the stated sizes", T_BV, "§5 C06"),
  "C15": ("other", "every control-stream decoder executed symbolically on N arbitrary bytes: no panic, no blocked read, every input-sized make() bounded (allocation oracle); the real receiver (goroutines as symbolic threads) with arbitrary bytes or one arbitrary frame on the data stream and with well-formed control records in arbitrary order: no panic, no all-blocked state, malformed frame rejected, success implies a file of the announced length; counterexamples replayed natively", T_BV, "§5 C15"),
  "C17": ("model_checking", "bounded model checking of sendFileState (real methods from SSA) over all interleavings of worker take/finish steps with resume report and verdict arrival; data symbolic, schedule forked; ghost counters for exactly-once dispatch and single ordered FileEnd; plus the whole sender with two workers on one file (canonical schedule + bounded preemptions): FileEnd is written only after every chunk is on its data stream", "bounded model checking by symbolic execution of go/ssa + SMT (symgo, z3 5.1.0)", "§5 C17"),
  "C18": ("other", "H_C18_* harnesses: every control record's write/read pair and record sequences executed symbolically; equality of value, type byte and bytes consumed decided by SMT for all field values within the stated boundary lengths", T_BV, "§5 C18"),
- "C19": ("other", "chunkTotal, chunkSizeForIndex and CreateSidecar executed symbolically; tiling and count agreement decided for every (size, chunk size, index) of the property's domain in an exact Int-with-wrap encoding", "symbolic execution of go/ssa + SMT (symgo; z3 5.1.0, Int-with-wrap encoding of machine arithmetic)", "§5 C19"),
+ "C19": ("other", "chunkTotal, chunkSizeForIndex and CreateSidecar executed symbolically; tiling and count agreement decided for every (size, chunk size, index) of the property's domain in an exact Int-with-wrap encoding; plus an SSA scan of internal/transfer that asks the solver, for every narrow product or shift that is widened to 64 bits, whether it can wrap", "symbolic execution of go/ssa + SMT (symgo; z3 5.1.0, Int-with-wrap encoding of machine arithmetic)", "§5 C19"),
 }
 claimed.update(json.load(open(os.path.join(D, 'tools', 'claimed_extra.json'))) if os.path.exists(os.path.join(D, 'tools', 'claimed_extra.json')) else {})
 na_reasons = json.load(open(os.path.join(D, 'tools', 'not_applicable.json')))
@@ -24,7 +24,7 @@ for p in props:
             "level_note": "bounded symbolic execution of the real SSA; trusted: go/ssa, the symgo interpreter and its stdlib/filesystem models, the SMT solvers, and the per-property idealisations listed in the evidence file's assumptions (DESIGN §8)",
             "technique": tech})
 na = [{"property_id": p['id'], "reason": na_reasons.get(p['id'], "check not built yet (solver-based design in DESIGN.md §5)")} for p in props if p['id'] not in claimed]
-fixes = "fix: commits in /repo: e31b0cb (C19), aa6707b (C06), b2b155f and bd31b89 (C17), 1b8b29f (C03 late duplicate), 8068c86 and 0110d43 (C12), ad51878 (C07), 0e3ae23, 4f9acd7 and 7f36ac5, 9c0c632 (C02), ea8813a and d996ccc (C03/C04), 1644088, 17bfe02, 04699de, 3c2a7eb, 345e430, c714a31, d43b432, 16c81f4, 84f2801 and 82d9a06 (C15), 0f09042 (C06), 3e6c11a and dae2cd6 (C11), 736ef18 (C13), 01c2a70 (C12). Known findings and fixed entries: /verif/known_findings.json."
+fixes = "fix: commits in /repo: e31b0cb (C19), aa6707b (C06), b2b155f and bd31b89 (C17), 1b8b29f (C03 late duplicate), 8068c86 and 0110d43 (C12), ad51878 (C07), 0e3ae23, 4f9acd7 and 7f36ac5, 9c0c632 (C02), ea8813a and d996ccc (C03/C04), 1644088, 17bfe02, 04699de, 3c2a7eb, 345e430, c714a31, d43b432, 16c81f4, 84f2801 and 82d9a06 (C15), 0f09042 (C06), 3e6c11a and dae2cd6 (C11), 736ef18 (C13), 01c2a70 (C12), d20e248 (C03 lost wake-up), beb3d22 (C06 kill window). Known findings and fixed entries: /verif/known_findings.json."
 m = {"version": 1, "setup_cmd": "./setup.sh",
  "hooks": {"guard": "verif", "enable": "no guarded code in /repo: harnesses and replay drivers enter builds through go/packages overlays and go test -overlay", "baseline_off_cmd": "cd /repo && GOFLAGS=-mod=mod GOPROXY=off go test -vet=off -count=1 -timeout 25m ./...", "source_commits": [], "add_only": True},
  "engines": [{"name": "symgo", "path": "/verif/symgo", "serves_properties": sorted(claimed), "kind_free_text": "own go/ssa symbolic executor (forking by re-execution) emitting SMT-LIB2 to z3 5.1.0 / z3 4.8.12 / cvc5"}],
